@@ -393,6 +393,25 @@ func Run(r *mc.Run) {
 	// ---- D: reused receiver ----
 	reuse := []string{"1.0", "1:2.0-3", "2.1", "0:1", "1-1", "3:4", "5-6-7", "1.0~rc1", " 2.0 ", "", "x", "1:", "7:1.0-1+b2"}
 	reuse = append(reuse, gen.AuditStrings(gen.Versionish, 3)...)
+	// first texts that nothing else in this run hands to the library - not even another shard of this scenario as a second
+	// text: whatever the library remembers per text, it meets each of them here first, on one goroutine
+	private := []string{"31337:2.71828-1", "31337.5", "4:31337-0", "2.71828~rc9", "31337-9-9", " 8.8.8 ", "6:6.6-6", "9.9.9+b9"}
+	r.Scenario("D-first-sighting-then-reuse", map[string]interface{}{"first_texts": private, "second_texts": len(reuse), "entry_points": "UnmarshalControl UnmarshalText json.Unmarshal"}, len(private), func(i int, st *mc.Stats) bool {
+		via := []string{"text", "json", "control"}[i%3] // the first sighting of a text goes through one entry point
+		for _, y := range reuse {
+			in := ReuseIn{private[i], y, via}
+			st.Evals++
+			st.Traces++
+			st.Nontrivial++
+			if v := checkReuse("D-first-sighting-then-reuse", in); v != nil {
+				st.Violate(v)
+				st.Class(v.Clause)
+			} else {
+				st.Class("as-fresh")
+			}
+		}
+		return true
+	})
 	r.Scenario("D-decode-into-reused-value", map[string]interface{}{"strings": reuse, "entry_points": "UnmarshalControl UnmarshalText json.Unmarshal", "pairs": len(reuse) * len(reuse)}, len(reuse), func(i int, st *mc.Stats) bool {
 		for _, y := range reuse {
 			for _, via := range []string{"control", "text", "json"} {
